@@ -106,11 +106,19 @@ impl Assignment {
         let name = self.idents[0].name();
 
         if self.flags().contains(AssignmentFlag::modify()) {
-            let (ident, _) = user_data
+            let (ident, is_callback) = user_data
                 .get_dependency_flags_from_name_skip_n(name, skip)
                 .context(
                     "attempting to look up a variable that does not exist in any parent scope",
                 )?;
+
+            // `modify` writes through the variable CAPTURED from an enclosing function. If the name
+            // resolves to a variable of the current function instead (a local that shadows the
+            // captured one), the checks here would look at the local while the store goes to the
+            // captured variable -- which may be `const`.
+            if !is_callback {
+                bail!("`{name}` is a variable of this function, not one captured from an enclosing function: `modify` does not apply (hint: drop the `modify` keyword)")
+            }
 
             return Ok(!ident.is_const());
         }
